@@ -61,7 +61,16 @@ Fixpoint choose (picks : list pick) (t : thread) (w0 : bytes) : bytes * list pic
   | PW w :: ps =>
       match take_week w (t_weeks t) with Some _ => (w, ps) | None => choose ps t w0 end
   | PSilent :: ps =>
-      match find (silent t) (t_weeks t) with Some g => (fst g, ps) | None => choose ps t w0 end
+      (* a week for which createReport made no os call: one without counters,
+         or (the entropy failure) any week that needs a report *)
+      match find (silent t) (t_weeks t) with
+      | Some g => (fst g, ps)
+      | None =>
+          match find (fun g => negb (not_needed (fst g) (t_uploaded t) (t_ready t))) (t_weeks t) with
+          | Some g => (fst g, ps)
+          | None => choose ps t w0
+          end
+      end
   end.
 
 Definition abort_week (t : thread) : thread := set_pc t RPick.
@@ -154,7 +163,7 @@ Definition fpick (p : fplan) (i : nat) (picks : list pick) (t : thread)
           let t1 := set_weeks t rest in
           if not_needed w (t_uploaded t) (t_ready t) then (start_del t1 w files (t_ready t), 0, false, picks')
           else (* createReport: computeRandom first *)
-            if bad p i then (set_pc t1 Done, 1, true, picks')
+            if bad p i then (set_pc t Done, 1, true, picks')
             else if has_counts files then (start_week t1 w files, 1, false, picks')
             else (t1, 1, false, picks')
       end
@@ -188,5 +197,5 @@ Definition finit (f : FS) (c : ucfg) (exported : bool) : fstate :=
 
 (* ---- the explicit bound on the number of calls of a run: n = number of
         entries of local/ ---- *)
-Definition call_bound (n : nat) : nat := 24 * n + 8.
+Definition call_bound (n : nat) : nat := 21 * n + 6.
 Definition entries (f : FS) : nat := length (f_local f).
